@@ -170,40 +170,35 @@ def frontMatch (f : Adapter) (s : Bytes) : Option SingleMatch := Adapters.matchT
 /-- the back adapter's match: searched in what remains after the front match (in `s` itself when the front adapter did not match) -/
 def backMatch (f b : Adapter) (s : Bytes) : Option SingleMatch := Adapters.matchTo b (remainderAfter s (frontMatch f s))
 
+/-- `LinkedAdapter.match_to` in terms of the two searches -/
+theorem linked_matchTo_eq (idx : Nat) (f b : Adapter) (fr br : Bool) (name : String) (s : Bytes) :
+    Matchable.matchTo idx (.linked f b fr br name) s =
+      if (fr && (frontMatch f s).isNone) = true then none
+      else if ((backMatch f b s).isNone && (br || (frontMatch f s).isNone)) = true then none
+      else some (.linked idx ((frontMatch f s).map (⟨·, s⟩)) ((backMatch f b s).map (⟨·, remainderAfter s (frontMatch f s)⟩))) := by
+  rw [Matchable.matchTo]
+  unfold backMatch frontMatch remainderAfter
+  generalize Adapters.matchTo f s = fm
+  cases fm <;> rfl
+
 /-- **(1)** a linked adapter reports no match iff a required part is missing (or nothing matched at all) -/
 theorem linked_none_iff (idx : Nat) (f b : Adapter) (fr br : Bool) (name : String) (s : Bytes) :
     Matchable.matchTo idx (.linked f b fr br name) s = none ↔
       ((fr = true ∧ frontMatch f s = none) ∨ (backMatch f b s = none ∧ (br = true ∨ frontMatch f s = none))) := by
-  unfold Matchable.matchTo backMatch frontMatch remainderAfter
-  cases hf : Adapters.matchTo f s with
-  | none =>
-    cases hb : Adapters.matchTo b s <;> cases fr <;> cases br <;> simp [hf, hb]
-  | some fm =>
-    cases hb : Adapters.matchTo b (if fm.before = true then List.drop fm.rstop s else List.take fm.rstart s) <;>
-      cases fr <;> cases br <;> simp [hf, hb]
+  rw [linked_matchTo_eq]
+  cases frontMatch f s <;> cases backMatch f b s <;> cases fr <;> cases br <;> simp
 
 /-- **(2)** a returned match consists of exactly the front match on `s` (if the front adapter matched) and the back match on
     the remainder (if the back adapter matched there) -/
 theorem linked_back_searched_in_remainder (idx : Nat) (f b : Adapter) (fr br : Bool) (name : String) (s : Bytes) (m : AnyMatch)
     (h : Matchable.matchTo idx (.linked f b fr br name) s = some m) :
     m = .linked idx ((frontMatch f s).map (⟨·, s⟩)) ((backMatch f b s).map (⟨·, remainderAfter s (frontMatch f s)⟩)) := by
-  unfold Matchable.matchTo at h
-  unfold backMatch frontMatch remainderAfter
-  cases hf : Adapters.matchTo f s with
-  | none =>
-    simp only [hf] at h ⊢
-    split at h
+  rw [linked_matchTo_eq] at h
+  split at h
+  · cases h
+  · split at h
     · cases h
-    · split at h
-      · cases h
-      · injection h with h; exact h.symm
-  | some fm =>
-    simp only [hf] at h ⊢
-    split at h
-    · cases h
-    · split at h
-      · cases h
-      · injection h with h; exact h.symm
+    · injection h with h; exact h.symm
 
 /-- a 5' front adapter removes everything up to the end of its match: the back adapter is searched in `s.drop rstop` -/
 theorem linked_remainder_front5 (f : Adapter) (s : Bytes) (fm : SingleMatch) (h : frontMatch f s = some fm)
@@ -304,11 +299,24 @@ theorem with_adapters_iff_match (names : Names) (side : Nat) (c : Cutter) (first
 def exAd (ty : AdapterType) (seq : Bytes) : Adapter :=
   { ty := ty, seq := seq, thr := fun L => L / 10, minOverlap := 3, readWildcards := false, adapterWildcards := false, indels := true }
 
-#eval (bestMatch [.single (exAd .back [65,65,65]), .single (exAd .back [67,67,67,67])] [71,71,67,67,67,67,65,65,65])
-#eval (bestMatch [.single (exAd .back [67,67,67]), .single (exAd .back [65,65,65])] [71,71,67,67,67,71,65,65,65])
-#eval (rounds [.single (exAd .back [65,65,65]), .single (exAd .back [67,67,67])] 2 ⟨[], [71,71,67,67,67,71,65,65,65], none⟩ [])
-#eval Matchable.matchTo 0 (.linked (exAd .prefix [65,65,65]) (exAd .back [67,67,67]) true true "l") [65,65,65,71,71,71]
-#eval Matchable.matchTo 0 (.linked (exAd .prefix [65,65,65]) (exAd .back [67,67,67]) true false "l") [65,65,65,71,71,71]
-#eval Matchable.matchTo 0 (.linked (exAd .prefix [65,65,65]) (exAd .back [67,67,67]) true true "l") [65,65,65,71,71,71,67,67,67,84]
+/-- two 3' adapters, the second matches with a higher score: it wins although it is given second -/
+example : (bestMatch [.single (exAd .back [65,65,65]), .single (exAd .back [67,67,67,67])] [71,71,67,67,67,67,65,65,65]).map
+    (fun m => (m.adapter, m.score, m.errors)) = some (1, 4, 0) := by decide +kernel
+/-- equal score and errors: the adapter given first wins -/
+example : (bestMatch [.single (exAd .back [67,67,67]), .single (exAd .back [65,65,65])] [71,71,67,67,67,71,65,65,65]).map
+    (fun m => (m.adapter, m.score, m.errors)) = some (0, 3, 0) := by decide +kernel
+/-- `--times 2`: the second round searches the already trimmed read (`GGCCCG`), `--times 3` stops after the round without match -/
+example : let r := rounds [.single (exAd .back [65,65,65]), .single (exAd .back [67,67,67])] 3 ⟨[], [71,71,67,67,67,71,65,65,65], none⟩ []
+    (r.1.seq, r.2.map (·.adapter), r.2.map (·.remainderInterval)) = ([71, 71], [0, 1], [(0, 6), (0, 2)]) := by decide +kernel
+/-- a linked adapter whose required 3' part is missing reports nothing (the read stays untouched) … -/
+example : Matchable.matchTo 0 (.linked (exAd .prefix [65,65,65]) (exAd .back [67,67,67]) true true "l") [65,65,65,71,71,71] = none := by
+  decide +kernel
+/-- … with an optional 3' part the 5' part alone is a match … -/
+example : (Matchable.matchTo 0 (.linked (exAd .prefix [65,65,65]) (exAd .back [67,67,67]) true false "l") [65,65,65,71,71,71]).map
+    (fun m => m.remainderInterval) = some (3, 6) := by decide +kernel
+/-- … and the 3' part is searched in what remains after the 5' part (`GGGCCCT`: found at 3..6 of the remainder) -/
+example : Matchable.matchTo 0 (.linked (exAd .prefix [65,65,65]) (exAd .back [67,67,67]) true true "l") [65,65,65,71,71,71,67,67,67,84] =
+    some (.linked 0 (some ⟨⟨0, 3, 0, 3, 3, 0, true⟩, [65,65,65,71,71,71,67,67,67,84]⟩)
+                    (some ⟨⟨0, 3, 3, 6, 3, 0, false⟩, [71,71,71,67,67,67,84]⟩)) := by decide +kernel
 
 end Cutadapt.C09
